@@ -53,9 +53,9 @@ def r1_registry(m):
     if whole:
         r.ob(True, "match_cpp_directive tries `for %s in %s`: the whole registry" % (A.text(loops[0].target), A.text(it)))
     else:
-        r.error("match_cpp_directive no longer tries the whole registry for every line (`for %s in %s`): whether the narrowed selection "
-                "still finds the right class for `#if(X)`, `#include\"f\"`, ... cannot be decided by this rule"
-                % (A.text(loops[0].target), A.text(it)[:40]))
+        # a narrowed dispatch is not decided structurally here; C14.R12 interprets the function on every directive sample instead
+        r.undet("match_cpp_directive does not try the whole registry for every line (`for %s in %s`): decided by C14.R12 (interpretation "
+                "on the directive samples), not by this rule" % (A.text(loops[0].target), A.text(it)[:40]))
     return r
 
 
@@ -208,6 +208,8 @@ def run(m, tier):
     r11 = C11.r11_strict_order(m, blocks, "C14.R11")
     r11.title = "a block that enforces the order of its classes lists only parts: the cpp-directive matcher is appended after the listed classes, so elsewhere a directive between two statements would end their matching"
     results.append(r11)
+    from rules import two_roundtrip
+    results.append(two_roundtrip.cpp_dispatch_rule(m, "C14.R12"))
     from rules import shapes_rules
     results += shapes_rules.c14_rules(m)
     expl = ("Decides structural clauses of C14: registry exhaustiveness (Cpp_*_Stmt classes == CPP_CLASS_NAMES); for each of the 14 "
